@@ -6,7 +6,7 @@
 (* The origin measurement has the events 1..N (tokens).  Every other file  *)
 (* is derived from an existing file by a selection `sel`: a sequence of    *)
 (* positions of the source's events - increasing for a filtered export or  *)
-(* the export of a hierarchy child, arbitrary (subset, repetition,         *)
+(* the export of a hierarchy child / grandchild, arbitrary (subset, repetition,         *)
 (* permutation, superset) for an explicitly mapped basin.  The derived     *)
 (* file stores only some features itself; everything else must come        *)
 (* through its basin(s), possibly through basins of basins.  Spec: file k  *)
@@ -26,7 +26,7 @@ VARIABLES files         \* sequence of [ev, src, how, own]
 Origin == [ev |-> [i \in 1..N |-> i], src |-> 0, how |-> "origin", own |-> FALSE]
 Init == files = <<Origin>>
 
-Hows == {"export", "child", "mapped"}
+Hows == {"export", "child", "grandchild", "mapped"}
 Increasing(s) == \A i \in 1..(Len(s) - 1) : s[i] < s[i + 1]
 
 \* a new file derived from file `src` by selection `sel`;
@@ -35,7 +35,7 @@ Derive(src, how, sel, own) ==
     /\ Len(files) < MaxFiles
     /\ Len(sel) >= 1
     /\ \A i \in 1..Len(sel) : sel[i] \in 1..Len(files[src].ev)
-    /\ how \in {"export", "child"} => Increasing(sel)
+    /\ how \in {"export", "child", "grandchild"} => Increasing(sel)
     /\ files' = Append(files, [ev |-> [i \in 1..Len(sel) |-> files[src].ev[sel[i]]],
                                src |-> src, how |-> how, sel |-> sel, own |-> own])
 
